@@ -285,6 +285,9 @@ func (vc *FuncVC) loopsOf(fn *ssa.Function) map[*ssa.BasicBlock]*loopInfo {
 	}
 	sort.Slice(hs, func(i, j int) bool { return hs[i].Index < hs[j].Index })
 	spec := vc.w.specFor(fn)
+	if fn == vc.fn && vc.spec != nil {
+		spec = vc.spec // the contract under verification (it may be one specialised to a closure)
+	}
 	for i, h := range hs {
 		li := res[h]
 		li.ordinal = i + 1
@@ -489,6 +492,17 @@ func (vc *FuncVC) callMods(c *ssa.CallCommon, out map[string]bool, depth int) {
 		return
 	case *ssa.Function:
 		sp := vc.w.specFor(f)
+		if sp == nil && vc.specClosure != nil {
+			// a call that passes the closure this verification is specialised to uses the specialised contract
+			name := vc.specClosure.String()
+			if ssp := vc.w.specs.Funcs[f.String()+"$"+name]; ssp != nil {
+				sp = ssp
+			} else if f.Pkg != nil && vc.specClosure.Pkg == f.Pkg {
+				if ssp := vc.w.specs.Funcs[f.String()+"$"+strings.TrimPrefix(name, f.Pkg.Pkg.Path()+".")]; ssp != nil {
+					sp = ssp
+				}
+			}
+		}
 		switch f.String() {
 		case "sort.Slice", "sort.SliceStable":
 			// permutes the elements of its first argument; the comparison closure is evaluated purely
